@@ -170,6 +170,8 @@ fn variants(rng: &mut Rng, k: u32) -> Vec<(&'static str, String)> {
         // a second stop signal sent to a stopped process is discarded by SIGCONT
         ("stop-cont", format!("{{ nap 30; echo done{k} >sd{k}; exit 5; }} & p=$!; kill -s STOP $p; kill -s {} $p; kill -s CONT $p; wait $p; echo \"?=$?\"; cat sd{k}", rng.pick(&["TSTP", "TTIN", "TTOU", "STOP"]))),
         ("kill-reaped", "{ exit 0; } & p=$!; wait $p; kill -s TERM $p; echo \"?=$?\"".to_string()),
+        // the highest and the lowest real-time signal can be trapped and caught
+        ("trap-rt", format!("trap 'echo rt{k}' RTMAX RTMIN; kill -s RTMAX $$; echo mid; kill -s RTMIN $$; echo \"?=$?\"; trap - RTMAX RTMIN")),
         // only the low eight bits of an exit status reach the parent
         ("exit-status-wrap", format!("( exit {} ); echo \"?=$?\"; {{ exit {}; }} & wait $!; echo \"?=$?\"; x=$(exit 257); echo \"?=$?\"", rng.pick(&[256u32, 384, 1000, 511]), rng.pick(&[256u32, 1000, 300]))),
         // a new name with a trailing slash cannot be created as a regular file
